@@ -485,8 +485,7 @@ def shape_part(ctx, gen, run_driver, use_driver=True):
             for kb in kb_choices(mb, ib, tb):
                 if kb != ():
                     fq.append((mb, ib, tb, kb))
-    if ctx.tier == "quick":
-        fq = rng.sample(fq, min(len(fq), 500))
+    fq = rng.sample(fq, min(len(fq), 500 if ctx.tier == "quick" else 3000))
     lines += [f"fshape {shp(mb)} | {shp(ib)} | {shp(tb)} | {shp(kb)}" for (mb, ib, tb, kb) in fq]
     S3 = shapes_upto(2 if ctx.tier == "quick" else 3)
     npairs = [(a, b) for a in S3 for b in S3]
@@ -555,14 +554,14 @@ def shape_part(ctx, gen, run_driver, use_driver=True):
     acc = [q for q in quads if specs.get(q, {}).get("spec")]
     rej = [q for q in quads if q in specs and not specs[q]["spec"]]
     if ctx.tier == "quick":
-        acc_s = rng.sample(acc, min(len(acc), 70))
+        acc_s = rng.sample(acc, min(len(acc), 55))
         # always the documented patterns incl. coinciding sizes
         must = [((), (), ()), ((2,), (2,), (2,)), ((2,), (2,), (3, 2)), ((), (3,), (3,)), ((), (), (3,)), ((2,), (), (2,)),
                 ((3,), (3,), (3, 3)), ((2, 3), (2, 3), (2, 2, 3)), ((1, 2), (1, 2), (1, 2)), ((3,), (1,), (3,))]
         acc_s = list(dict.fromkeys([(a, b, c, ()) for (a, b, c) in must if (a, b, c, ()) in specs] + acc_s))
-        rej_s = rng.sample(rej, min(len(rej), 50))
+        rej_s = rng.sample(rej, min(len(rej), 35))
     else:
-        acc_s, rej_s = acc, rng.sample(rej, min(len(rej), 1500))
+        acc_s, rej_s = acc, rng.sample(rej, min(len(rej), 500))
     cases = []
     for (mb, ib, tb, kb) in acc_s + rej_s:
         n = rng.choice([2, 3, 4])
@@ -579,7 +578,7 @@ def shape_part(ctx, gen, run_driver, use_driver=True):
             cases.append({"mb": mb, "ib": (), "tb": tb, "lik": "gauss", "n": 3, "f": rng.choice([2, 3]), "d": 1, "one_d": True,
                           "fpv": rng.choice([0, 1]), "seed": rng.getrandbits(30)})
     facc = [q for q in fq if q in specs]
-    for q in rng.sample(facc, min(len(facc), 40 if ctx.tier == "quick" else 600)):
+    for q in rng.sample(facc, min(len(facc), 40 if ctx.tier == "quick" else 250)):
         mb, ib, tb, kb = q
         if (mb, kb) not in nspecs:
             continue
